@@ -72,12 +72,16 @@ class Canon:
         if h == "call":
             if t[1] in _PLUMB and len(t[2]) == 1:
                 return self.c(t[2][0], depth + 1)
+            if t[1].endswith(("FnOnce::call_once", "FnMut::call_mut", "Fn::call")) and len(t[2]) == 2 and t[2][0][0] == "closure" and depth < 12:
+                a = t[2][1]
+                args = list(a[1]) if a[0] == "tuple" else [a]
+                body = Inliner(self.ctx).inline_closure(t[2][0], args)      # a closure applied on the spot is its body
+                if body is not None:
+                    return self.c(body, depth + 1)
             if not _is_std(t[1]) and depth < 12:
-                g = self.ctx.F.by_qname.get(t[1], [])
-                if len(g) == 1 and not g[0].reach and not g[0].in_testonly() and t[1] not in load():
-                    body = Inliner(self.ctx).inline_fn(t[1], list(t[2]))       # a crate-private helper is read through
-                    if body is not None:
-                        return self.c(body, depth + 1)
+                body = _read_through(self.ctx, t[1], t[2])       # a crate-private helper is read through
+                if body is not None:
+                    return self.c(body, depth + 1)
             if t[1] == "std::option::Option::take" and len(t[2]) == 1:
                 t = ("call", "std::mem::take", t[2])          # the same operation on an Option
             if t[1] in _MAPS and len(t[2]) == 2 and t[2][1][0] == "closure":
@@ -145,6 +149,39 @@ _ARITH = {"Add": "Add", "AddWithOverflow": "Add", "AddUnchecked": "Add", "Sub": 
           "BitAnd": "BitAnd", "BitOr": "BitOr", "BitXor": "BitXor", "Shl": "Shl", "Shr": "Shr"}
 
 
+def _read_through(ctx, q, args, pinned_ok=False):
+    """the value of a call of a workspace function that is read through when terms / ingredients are compared: a crate-private helper
+    (however many callers it has) or - for ingredients - a function that is itself a value pin (its meaning is fixed by its own
+    reference: `with_timeout` written as `with_deadline(now + d)` instead of `child(now + d)`). Async callees are read from their
+    coroutine body (parameters are its captures)."""
+    g = ctx.F.by_qname.get(q, [])
+    if len(g) != 1 or g[0].in_testonly():
+        return None
+    fn = g[0]
+    tab = load()
+    if q in tab:
+        if not pinned_ok or "census" in tab[q]:
+            return None
+    elif fn.reach:
+        return None
+    if not fn.is_async:
+        return Inliner(ctx).inline_fn(q, list(args))
+    body = ctx.F.body_of(fn)
+    if body is fn or len(body.blocks) > 80:
+        return None
+    rt = Inliner(ctx).ret_term(body)
+    if rt is None:
+        return None
+    from engine.guards import subst
+    vn = fn.var_names()
+    m = {}
+    for i, a in enumerate(args):
+        n = vn.get(1 + i)
+        if n is not None:
+            m[("upvar", n)] = a
+    return subst(rt, m)
+
+
 def _is_std(q):
     h = q.lstrip("<&").split("::", 1)[0]
     return h in ("std", "core", "alloc") or h in _PRIMS or q.startswith(("<std::", "<core::", "<alloc::"))
@@ -200,15 +237,21 @@ class Skel:
             if q in _PLUMB and len(t[2]) == 1:
                 self.walk(t[2][0], depth + 1)
                 return
+            if q.endswith(("FnOnce::call_once", "FnMut::call_mut", "Fn::call")) and len(t[2]) == 2 and t[2][0][0] == "closure" and depth < 12:
+                a = t[2][1]
+                body = Inliner(self.ctx).inline_closure(t[2][0], list(a[1]) if a[0] == "tuple" else [a])
+                if body is not None:
+                    self.walk(body, depth + 1)
+                    return
             if q == "std::default::Default::default" or (not t[2] and q.rsplit("::", 1)[-1] in ("new", "default") and not _is_std(q)):
                 self.items.add("fresh()")        # a no-argument constructor and Default::default() are the same ingredient
             elif _is_std(q):
                 self.std.add(q.rsplit("::", 1)[-1])
             else:
-                g = self.ctx.F.by_qname.get(q, [])
-                if len(g) == 1 and not g[0].reach and not g[0].in_testonly() and depth < 8 and q not in load():
-                    # a crate-private helper (however many callers it has) is read through: its ingredients are the caller's
-                    body = Inliner(self.ctx).inline_fn(q, list(t[2]))
+                if depth < 8:
+                    # a crate-private helper (however many callers it has) and a callee that is itself a value pin are read through:
+                    # their ingredients are the caller's
+                    body = _read_through(self.ctx, q, t[2], pinned_ok=True)
                     if body is not None:
                         self.walk(body, depth + 1)
                         return
@@ -225,7 +268,7 @@ class Skel:
                 elif par in adts and adts[par]["kind"] == "enum":
                     self.items.add("agg:%s::%s" % (par.split("::")[-1], t[1].split("::")[-1]))
                 else:
-                    self.items.add("c:%s" % _short(t[1]))
+                    self.items.add("call:%s" % _short(t[1]))      # a function handed to map / and_then is called
         elif h == "agg":
             if not (t[1].startswith(("std::option::Option", "std::result::Result", "std::ops::", "std::task::Poll")) or t[1] in ("tuple", "array")):
                 self.items.add("agg:%s::%s" % (t[1].split("::")[-1], t[2]))
@@ -485,12 +528,24 @@ def census_of(ctx, f0):
     items = set()
     st = [f0]
     seen = set()
+    tab = load()
+    through = set()
     while st:
         g = st.pop()
         if id(g) in seen:
             continue
         seen.add(id(g))
         st.extend(g.children)
+        # crate-private, unpinned workspace callees belong to the primitive (an extracted helper, a moved loop)
+        for c in ctx.T(g).calls():
+            for rq in (c.get("rq"), c.get("q")):
+                hs = ctx.F.by_qname.get(rq, []) if rq else []
+                if not hs and rq and rq in getattr(ctx.F, "helpers", {}):
+                    hs = [ctx.F.helpers[rq]]          # a helper the virtual inliner spliced away still has its own body
+                if len(hs) == 1 and not hs[0].reach and not hs[0].in_testonly() and rq not in tab and len(seen) < 12:
+                    through.add(_short(rq))
+                    st.append(hs[0])
+                    break
         T = ctx.T(g)
         SE = Skel(ctx)
         for b in g.blocks:
@@ -502,13 +557,15 @@ def census_of(ctx, f0):
                     SE.walk(T.call_term(t))
                 except Exception:
                     continue
-        items |= {i for i in SE.items if i.startswith(("call:", "agg:")) and not i.startswith("call:support::")}   # support:: = internals of tokio's select!
+        items |= {i for i in SE.items if i.startswith("call:") and not i.startswith("call:support::")}   # support:: = internals of tokio's select!
         for c in T.calls():
             rq = c.get("rq")
             if (rq and rq.startswith("<") and rq in ctx.F.by_qname and "::proto::" not in rq
                     and not any(x in rq for x in (" as std::clone::Clone>", " as std::fmt::", " as std::ops::Deref", " as std::ops::Drop>", " as std::default::Default>", " as std::future::", " as std::convert::"))):
                 items.add("call:%s" % _short(rq))          # an operator / trait call resolved to a workspace impl
-    return sorted(i for i in items if not i.split(":", 1)[1].startswith(("tracing", "Span::", "Metrics", "Level", "Callsite", "DefaultCallsite", "ValueSet", "FieldSet", "Interest", "Event::", "Identifier", "Metadata", "Kind", "__macro", "Field::")))
+    items = {i for i in items if not (i.startswith("call:") and i[5:] in through)}
+
+    return sorted(i for i in items if not i.split(":", 1)[1].startswith(("tracing", "level_filters::", "Span::", "Metrics", "Level", "Callsite", "DefaultCallsite", "ValueSet", "FieldSet", "Interest", "Event::", "Identifier", "Metadata", "Kind", "__macro", "Field::")))
 
 
 import re as _re
@@ -693,8 +750,19 @@ def run(ctx, prop):
             rsk["<effects>"] = list(e.get("effects_skeleton", []))
             last = dict(last, open=last["open"] or SE.open, std=sorted(set(last["std"]) | SE.std))
         newsel = sorted(c for c in set(last["std"]) - set(e.get("std", [])) if c in _ORDER_SELECT)
+        def _implicit(i):
+            j = i.split("=", 1)[-1] if i.startswith("@") else i
+            return j == "wrap:Err" or (j.startswith("when:") and _re.search(r"=(Ok|Err|Some|None|Ready|Pending)(\b|$)", j) is not None and not _re.search(r"(==|!=|<|>)", j.split("when:", 1)[1].split("=")[0]))
+        sk = {k: [i for i in v if not _implicit(i)] for k, v in sk.items()}
+        rsk = {k: [i for i in v if not _implicit(i)] for k, v in rsk.items()}
         sk = {k: sorted(_drop_added_fields(set(v), set(rsk.get(k, [])))) for k, v in sk.items()}
         same = {k: set(v) for k, v in sk.items()} == {k: set(v) for k, v in rsk.items()}
+        if not same and (set(sk) != set(rsk) or (e.get("decided_only") and not q.startswith("<") or "MeteredStream" in q)):
+            # the control flow was restructured (other rows): compare what the function is made of as a whole - calls, constructors,
+            # constants, arithmetic, ranges and the parameter paths it reads
+            def whole(d):
+                return {j for j in (i.split("=", 1)[-1] if i.startswith("@") else i for v in d.values() for i in v) if j.startswith(("call:", "agg:", "const:", "bin:", "range:", "fresh"))}
+            same = whole(sk) == whole(rsk)
         if same and not newsel:
             ctx.note("%s %s: written differently from the reference but with the same ingredients (std-level rewrite) - accepted" % (R, _short(q)))
             ctx.ob(R, key, True, "same ingredients as the reference (%s), another std-level form" % e["why"], f.loc())
